@@ -918,9 +918,9 @@ func TestVerif(t *testing.T) {
 		}
 
 		keys := []string{"a", "b"}
-		leaves := []string{`null`, `1`, `"s"`, `[]`, `[1,null]`}
+		leaves := []string{`null`, `1`, `"s"`, `[1,null]`}
 		if r.Thorough() {
-			leaves = append(leaves, `false`, `[{"a":null}]`)
+			leaves = append(leaves, `[]`, `false`, `[{"a":null}]`)
 		}
 		vals := gen(3, keys, leaves)
 		shallow := gen(2, keys, leaves)
